@@ -787,3 +787,229 @@ Proof.
     rewrite (slice_move_ok f u cvs H Bwd (r_step r) _ (Z.to_nat (range_val r (Z.of_nat i))) c v' E2); auto.
     unfold range_val in *. lia.
 Qed.
+
+(* ------------------------------------------------------------------ Zip over well-behaved iterables *)
+Fixpoint mapM {A B} (g : A -> option B) (l : list A) : option (list B) :=
+  match l with
+  | [] => Some []
+  | a :: r => match g a with None => None | Some b => option_map (cons b) (mapM g r) end
+  end.
+
+Definition zrow (css : list (list (cur * val))) (j : nat) := mapM (fun l => nth_error l j) css.
+Definition zrow_before (css : list (list (cur * val))) (j : nat) :=
+  mapM (fun l => match j with O => None | S k => nth_error l k end) css.
+
+Fixpoint minlen (css : list (list (cur * val))) : nat :=
+  match css with
+  | [] => 0
+  | l :: r => match r with [] => length l | _ => Nat.min (length l) (minlen r) end
+  end.
+
+Definition zip_item (row : list (cur * val)) : cur * val := (CZip (map fst row), VTup (map snd row)).
+Definition zip_chain (css : list (list (cur * val))) : list (cur * val) :=
+  map (fun j => match zrow css j with Some row => zip_item row | None => (CPos 0, VInt 0) end)
+      (seq 0 (minlen css)).
+
+Lemma lt_minlen css j : css <> [] -> ((j < minlen css)%nat <-> Forall (fun l => (j < length l)%nat) css).
+Proof.
+  induction css as [|l r IH]; [congruence|]. intros _. destruct r as [|l2 r].
+  - simpl. split; [intros; constructor; auto | intros H; now inversion H].
+  - assert (l2 :: r <> []) as Hne by congruence. specialize (IH Hne).
+    change (minlen (l :: l2 :: r)) with (Nat.min (length l) (minlen (l2 :: r))). split.
+    + intros H. constructor; [lia|]. apply IH. lia.
+    + intros H. inversion H; subst. apply IH in H3. lia.
+Qed.
+
+Lemma mapM_some_iff {A B} (g : A -> option B) l :
+  (exists row, mapM g l = Some row) <-> Forall (fun a => g a <> None) l.
+Proof.
+  induction l as [|a r IH]; simpl.
+  - split; eauto.
+  - destruct (g a) eqn:E.
+    + split.
+      * intros [row Hr]. constructor; [congruence|]. apply IH. destruct (mapM g r); [eauto|discriminate].
+      * intros H. inversion H; subst. apply IH in H3 as [row ->]. simpl. eauto.
+    + split; [intros [? ?]; discriminate | intros H; inversion H; congruence].
+Qed.
+
+Lemma zrow_some css j : css <> [] -> (j < minlen css)%nat -> exists row, zrow css j = Some row.
+Proof.
+  intros Hne Hj. apply mapM_some_iff. apply (lt_minlen css j Hne) in Hj.
+  eapply Forall_impl; [|exact Hj]. intros l Hl. now apply nth_error_Some.
+Qed.
+
+Lemma zrow_none css j : css <> [] -> (minlen css <= j)%nat -> zrow css j = None.
+Proof.
+  intros Hne Hj. destruct (zrow css j) as [row|] eqn:E; auto. exfalso.
+  assert (Forall (fun l => nth_error l j <> None) css) by (apply mapM_some_iff; eauto).
+  assert (j < minlen css)%nat; [|lia]. apply lt_minlen; auto.
+  eapply Forall_impl; [|exact H]. intros l' Hl. now apply nth_error_Some.
+Qed.
+
+Lemma zip_chain_nth css j : css <> [] ->
+  nth_error (zip_chain css) j = option_map zip_item (zrow css j).
+Proof.
+  intros Hne. unfold zip_chain. rewrite nth_error_map.
+  destruct (Nat.lt_ge_cases j (minlen css)) as [H|H].
+  - rewrite seq_nth_error by auto. cbn [option_map Nat.add].
+    destruct (zrow_some css j Hne H) as [row ->]. reflexivity.
+  - rewrite zrow_none by auto.
+    assert (nth_error (seq 0 (minlen css)) j = None) as -> by (apply nth_error_None; now rewrite seq_length).
+    reflexivity.
+Qed.
+
+Lemma zip_chain_length css : length (zip_chain css) = minlen css.
+Proof. unfold zip_chain. now rewrite map_length, seq_length. Qed.
+
+Lemma zip_chain_at css j : css <> [] ->
+  cur_at (zip_chain css) j = option_map (fun row => CZip (map fst row)) (zrow css j).
+Proof.
+  intros Hne. unfold cur_at. rewrite zip_chain_nth by auto. now destruct (zrow css j).
+Qed.
+
+Lemma Forall2_impl {A B} (P Q : A -> B -> Prop) l1 l2 :
+  (forall a b, P a b -> Q a b) -> Forall2 P l1 l2 -> Forall2 Q l1 l2.
+Proof. intros H. induction 1; constructor; auto. Qed.
+
+(* the loops of Zip_Iter_Next/Prev, Zip_Iter_Init/Last and of the values Tuple, over arbitrary targets *)
+Lemma zip_steps_gen stepf (src tgt : list (cur * val) -> option (cur * val)) us css :
+  Forall2 (fun u l => forall cv, src l = Some cv -> stepf u (fst cv) = OVal (option_map fst (tgt l))) us css ->
+  forall row acc, mapM src css = Some row ->
+    zip_steps stepf us (map fst row) acc =
+    OVal (option_map (fun row' => CZip (rev acc ++ map fst row')) (mapM tgt css)).
+Proof.
+  induction 1 as [|u l us css Hu Hrest IH]; intros row acc Hrow.
+  - simpl in Hrow. inversion Hrow. simpl. now rewrite app_nil_r.
+  - simpl in Hrow. destruct (src l) as [cv|] eqn:Es; [|discriminate].
+    destruct (mapM src css) as [row'|] eqn:Er; [|discriminate]. inversion Hrow; subst.
+    cbn [map zip_steps]. rewrite (Hu cv eq_refl). cbn [bind mapM].
+    destruct (tgt l) as [[c2 v2]|]; cbn [option_map fst]; [|reflexivity].
+    rewrite (IH row' (c2 :: acc) eq_refl). destruct (mapM tgt css); cbn [option_map]; [|reflexivity].
+    cbn [rev map fst]. now rewrite <- app_assoc.
+Qed.
+
+Lemma zip_starts_gen startf (tgt : list (cur * val) -> option (cur * val)) us css :
+  Forall2 (fun u l => startf u = OVal (option_map fst (tgt l))) us css ->
+  forall acc, zip_starts startf us acc =
+    OVal (option_map (fun row' => CZip (rev acc ++ map fst row')) (mapM tgt css)).
+Proof.
+  induction 1 as [|u l us css Hu Hrest IH]; intros acc.
+  - simpl. now rewrite app_nil_r.
+  - cbn [zip_starts]. rewrite Hu. cbn [bind mapM].
+    destruct (tgt l) as [[c2 v2]|]; cbn [option_map fst]; [|reflexivity].
+    rewrite (IH (c2 :: acc)). destruct (mapM tgt css); cbn [option_map]; [|reflexivity].
+    cbn [rev map fst]. now rewrite <- app_assoc.
+Qed.
+
+Lemma zip_vals_gen valf (src : list (cur * val) -> option (cur * val)) us css :
+  Forall2 (fun u l => forall cv, src l = Some cv -> valf u (fst cv) = OVal (snd cv)) us css ->
+  forall row, mapM src css = Some row -> zip_vals valf us (map fst row) = OVal (map snd row).
+Proof.
+  induction 1 as [|u l us css Hu Hrest IH]; intros row Hrow.
+  - simpl in Hrow. inversion Hrow. reflexivity.
+  - simpl in Hrow. destruct (src l) as [cv|] eqn:Es; [|discriminate].
+    destruct (mapM src css) as [row'|] eqn:Er; [|discriminate]. inversion Hrow; subst.
+    cbn [map zip_vals]. rewrite (Hu cv eq_refl). cbn [bind]. now rewrite (IH row' eq_refl).
+Qed.
+
+(* Zip_Item_Len of an input answers the length of its chain *)
+Definition item_len_of (f : nat) (u : iterable) : outcome Z :=
+  if implements_len u then it_len R u
+  else do c0 <- it_start R f Fwd u; count_loop (it_step R f Fwd u) f c0 0.
+
+Lemma count_loop_ok f u cvs (H : wb f u cvs) : forall m i k n, (length cvs <= i + m)%nat -> (m <= k)%nat ->
+  count_loop (it_step R f Fwd u) k (cur_at cvs i) n = OVal (n + Z.of_nat (length cvs - i)).
+Proof.
+  induction m; intros i k n Hi Hk.
+  - assert (cur_at cvs i = None) as -> by (apply cur_at_none; lia).
+    replace (length cvs - i)%nat with 0%nat by lia. destruct k; cbn [count_loop]; f_equal; lia.
+  - destruct (nth_error cvs i) as [[c v]|] eqn:E.
+    2:{ apply nth_error_None in E. assert (cur_at cvs i = None) as -> by (apply cur_at_none; lia).
+        replace (length cvs - i)%nat with 0%nat by lia. destruct k; cbn [count_loop]; f_equal; lia. }
+    assert (i < length cvs)%nat by (apply nth_error_Some; congruence).
+    unfold cur_at at 1. rewrite E. destruct k as [|k]; [lia|]. cbn [option_map fst count_loop].
+    rewrite (wb_next _ _ _ H _ _ _ E). cbn [bind]. rewrite IHm by lia. f_equal. lia.
+Qed.
+
+Lemma item_len_ok f u cvs : wb f u cvs -> (length cvs <= f)%nat ->
+  (implements_len u = true -> it_len R u = OVal (zlen cvs)) -> item_len_of f u = OVal (zlen cvs).
+Proof.
+  intros H Hf Hl. unfold item_len_of. destruct (implements_len u); [auto|].
+  rewrite (wb_init _ _ _ H). cbn [bind]. rewrite (count_loop_ok f u cvs H (length cvs) 0%nat f 0) by lia.
+  unfold zlen. f_equal. lia.
+Qed.
+
+Lemma zip_minlen_ok f us css : Forall2 (fun u l => item_len_of f u = OVal (zlen l)) us css ->
+  forall m, zip_minlen (item_len_of f) us m =
+    OVal (match css, m with
+          | [], None => 0 | [], Some x => x
+          | _ :: _, None => Z.of_nat (minlen css)
+          | _ :: _, Some x => Z.min x (Z.of_nat (minlen css))
+          end).
+Proof.
+  induction 1 as [|u l us css Hu Hrest IH]; intros m.
+  - destruct m; reflexivity.
+  - cbn [zip_minlen]. rewrite Hu. cbn [bind]. rewrite IH. f_equal.
+    unfold zlen. destruct css as [|l2 css]; destruct m as [x|]; cbn [minlen]; zb; try lia;
+      try (change (minlen (l :: l2 :: css)) with (Nat.min (length l) (minlen (l2 :: css)))); lia.
+Qed.
+
+Theorem wb_zip f us css : us <> [] ->
+  Forall2 (wb f) us css -> Forall2 (fun u l => item_len_of f u = OVal (zlen l)) us css ->
+  wb f (IZip us) (zip_chain css).
+Proof.
+  intros Hne Hwb Hlen.
+  assert (Hcne : css <> []) by (destruct Hwb; congruence).
+  assert (Hstep : forall d, it_step R f d (IZip us) = fun c => match c with CZip cs => zip_steps (it_step R f d) us cs [] | _ => OCrash end).
+  { intros d. destruct us; [congruence|]. reflexivity. }
+  constructor.
+  - (* Zip_Iter_Init *)
+    destruct us as [|u0 us']; [congruence|]. cbn [it_start].
+    rewrite (zip_starts_gen (it_start R f Fwd) (fun l => nth_error l 0) (u0 :: us') css).
+    + cbn [rev app]. now rewrite zip_chain_at.
+    + eapply Forall2_impl; [|exact Hwb]. intros u l H. apply (wb_init _ _ _ H).
+  - (* Zip_Iter_Last *)
+    destruct us as [|u0 us']; [congruence|]. cbn [it_start zip_last_aligned repaired].
+    fold (item_len_of f). rewrite (zip_minlen_ok f _ css Hlen None). cbn [bind].
+    destruct css as [|l0 css']; [congruence|].
+    rewrite (zip_starts_gen _ (fun l => match minlen (l0 :: css') with O => None | S k => nth_error l k end) (u0 :: us') (l0 :: css')).
+    + cbn [rev app]. rewrite zip_chain_length.
+      destruct (minlen (l0 :: css')) as [|k] eqn:Em; cbn [cur_before].
+      * reflexivity.
+      * rewrite zip_chain_at by auto. reflexivity.
+    + clear Hstep Hne Hcne.
+      assert (Hall : Forall (fun l => (minlen (l0 :: css') <= length l)%nat) (l0 :: css')).
+      { apply Forall_forall. intros l Hin. destruct (minlen (l0 :: css')) as [|k] eqn:Em; [lia|].
+        assert (k < minlen (l0 :: css'))%nat as Hk by lia. apply lt_minlen in Hk; [|congruence].
+        rewrite Forall_forall in Hk. specialize (Hk l Hin). lia. }
+      revert Hall. generalize (minlen (l0 :: css')) as m. intros m Hall.
+      revert Hlen Hall. induction Hwb as [|u l us css Hu Hrest IH]; intros Hlen Hall; constructor.
+      * inversion Hlen; subst. inversion Hall; subst. unfold item_len_of in H2. rewrite H2. cbn [bind].
+        rewrite (wb_last _ _ _ Hu). cbn [bind].
+        rewrite (step_n_bwd _ _ _ Hu) by (unfold zlen; lia).
+        replace (length l - Z.to_nat (zlen l - Z.of_nat m))%nat with m by (unfold zlen; lia).
+        destruct m; reflexivity.
+      * inversion Hlen; subst. inversion Hall; subst. now apply IH.
+  - intros j c v E. rewrite zip_chain_nth in E by auto.
+    destruct (zrow css j) as [row|] eqn:Er; inversion E; subst. cbn [cur_val].
+    rewrite (zip_vals_gen cur_val (fun l => nth_error l j) us css) with (row := row); auto.
+    eapply Forall2_impl; [|exact Hwb]. intros u l H cv Hcv. destruct cv. apply (wb_val _ _ _ H _ _ _ Hcv).
+  - (* Zip_Iter_Next *)
+    intros j c v E. rewrite zip_chain_nth in E by auto.
+    destruct (zrow css j) as [row|] eqn:Er; inversion E; subst. rewrite Hstep.
+    rewrite (zip_steps_gen _ (fun l => nth_error l j) (fun l => nth_error l (S j)) us css) with (row := row); auto.
+    + cbn [rev app]. now rewrite zip_chain_at.
+    + eapply Forall2_impl; [|exact Hwb]. intros u l H cv Hcv. destruct cv. apply (wb_next _ _ _ H _ _ _ Hcv).
+  - (* Zip_Iter_Prev *)
+    intros j c v E. rewrite zip_chain_nth in E by auto.
+    destruct (zrow css j) as [row|] eqn:Er; inversion E; subst. rewrite Hstep.
+    rewrite (zip_steps_gen _ (fun l => nth_error l j) (fun l => match j with O => None | S k => nth_error l k end) us css) with (row := row); auto.
+    + cbn [rev app]. destruct j as [|k]; cbn [cur_before].
+      * destruct css; [congruence|]. reflexivity.
+      * now rewrite zip_chain_at.
+    + eapply Forall2_impl; [|exact Hwb]. intros u l H cv Hcv. destruct cv.
+      cbn [fst]. rewrite (wb_prev _ _ _ H _ _ _ Hcv). destruct j; reflexivity.
+Qed.
+
+Lemma wb_zip_nil f : wb f (IZip []) [].
+Proof. constructor; try reflexivity; intros [|i] c v E; discriminate. Qed.
